@@ -136,7 +136,11 @@ def bin_image_clause(model, rep, funcs):
     ok2 = MI.all_of(["$sl.append(slice(None, $$stop))", "$sh.extend([$$q, binsize])", "$r = img[tuple($sl)].reshape(tuple($sh))"], bi)[0] and \
         (MI.has("return $r.sum(axis=tuple($i * 2 + 1 for $i in range(img.ndim)))", bi) or MI.has("return $r.sum(axis=tuple(2 * $i + 1 for $i in range(img.ndim)))", bi))
     ax = []
-    rep.ob("A", f.anchor, "the block sum reduces exactly the within-block axes 1, 3, 5 with sum()", ok2, norm_src(ax[0].value) if ax else "", node=f.node, fn=f,
+    rets_bi = [r for r in walk_no_nested(f.node) if isinstance(r, ast.Return)]
+    if len(rets_bi) != 1:
+        ok2 = False
+    one_path_note = "" if len(rets_bi) == 1 else f"bin_image has {len(rets_bi)} return paths: a special case (e.g. chunk-wise binning of dask arrays) does not compute the block sum of the whole image"
+    rep.ob("A", f.anchor, "the block sum reduces exactly the within-block axes 1, 3, 5 with sum(), on one code path for numpy and dask images", ok2, one_path_note, node=f.node, fn=f,
            clause="block sum", stmt="def bin_image sum")
 
 
